@@ -160,9 +160,10 @@ Definition i_dispatch (s : istate) (l : str) (ok : bool) : istate * list reply :
              end
       else if cmd_is cmd "LOGOUT" then (set_mode s IDone, [RBye; RTag])
       else if cmd_is cmd "STARTTLS" then
-        if 2 <? nparts then (s, [RTag])
-        else if i_tls s then (s, [RTag])
-        else if negb ok then (s, [RTag])                       (* certificate does not load *)
+        (* connection.go: `auth.HandleStartTLS(...); return` — the handler ends even when STARTTLS was refused *)
+        if 2 <? nparts then (set_mode s IDone, [RTag])
+        else if i_tls s then (set_mode s IDone, [RTag])
+        else if negb ok then (set_mode s IDone, [RTag])        (* certificate does not load *)
         else (set_mode s IHandshake, [RTag])
       else (s, [RTag])
   end.
@@ -319,9 +320,15 @@ Inductive smode := SCmd | SDone.
 Definition TAB : ascii := ascii_of_nat 9.
 Definition max_token : N := 65536%N.
 
+(** strings.Split(line, "\t"), linear in the length of the line (lines of
+    64 KiB are part of the domain: bufio.Scanner's token limit) *)
+Definition split_tab (s : str) : list str :=
+  fold_right (fun c acc => if Ascii.eqb c TAB then [] :: acc
+                           else match acc with h :: t => (c :: h) :: t | [] => [[c]] end) [[]] s.
+
 (** number of '\n'-terminated lines written for one received line *)
 Definition s_reply_count (l : str) : nat :=
-  match split_byte l TAB with
+  match split_tab l with
   | c :: p1 :: rest =>
       if cmd_is c "VERSION" then 1
       else if cmd_is c "CPID" then 3
